@@ -321,6 +321,128 @@ def extract_ctor_census(status):
         return 'def ctorCallsWithoutClosed : List String := ["extraction failed"]'
 
 
+
+def _lean_val(x):
+    import math as _m
+    from fractions import Fraction as _F
+    if x is None or (isinstance(x, float) and _m.isnan(x)):
+        return "none"
+    q = _F(float(x))
+    if q.denominator == 1:
+        return f"some {q.numerator}" if q >= 0 else f"some ({q.numerator})"
+    return f"some ({q.numerator}/{q.denominator})"
+
+
+def extract_form_conversions(status):
+    """stairs._make_deltas_from_vals / _make_vals_from_deltas evaluated on every (initial value, column) with up to
+    3 rows over {NaN, 0, 1, 3} (canonical inputs only for the first: a NaN initial value followed by a NaN first row
+    is not a reachable state)"""
+    try:
+        _fresh_import()
+        import itertools
+        import numpy as np
+        import pandas as pd
+        from staircase.core.stairs import _make_deltas_from_vals, _make_vals_from_deltas
+        dom = [float("nan"), 0.0, 1.0, 3.0]
+        d_rows, v_rows = [], []
+        for init in dom:
+            for n in (1, 2, 3):
+                for col in itertools.product(dom, repeat=n):
+                    ser = pd.Series(list(col), index=range(10, 10 + n), dtype="float64")
+                    vals = list(_make_vals_from_deltas(init, ser.copy()).values)
+                    v_rows.append((init, col, vals))
+                    # minimal (canonical) value columns only: no value equal to its left neighbour (NaN = NaN)
+                    prev, ok = init, True
+                    for v in col:
+                        same = (np.isnan(v) and np.isnan(prev)) or v == prev
+                        if same:
+                            ok = False
+                        prev = v
+                    if ok:
+                        with np.errstate(all="ignore"):
+                            ds = list(_make_deltas_from_vals(init, ser.copy()).values)
+                        d_rows.append((init, col, ds))
+        status["formConversions"] = f"ok ({len(d_rows)} + {len(v_rows)} cases)"
+
+        def fmt(rows, name):
+            out = [f"def {name} : List (Val × List Val × List Val) := ["]
+            out.append(",\n".join(f"  ({_lean_val(i)}, [{', '.join(_lean_val(x) for x in c)}], [{', '.join(_lean_val(x) for x in r)}])"
+                                  for i, c, r in rows))
+            out.append("]")
+            return "\n".join(out)
+        return fmt(d_rows, "deltasFromValsCases") + "\n\n" + fmt(v_rows, "valsFromDeltasCases")
+    except Exception as exc:  # noqa: BLE001
+        status["formConversions"] = "failed: " + repr(exc)[:200]
+        return ("def deltasFromValsCases : List (Val × List Val × List Val) := [(none, [], [some 1])]  -- extraction failed\n"
+                "def valsFromDeltasCases : List (Val × List Val × List Val) := [(none, [], [some 1])]")
+
+
+
+def extract_remove_redundant(status):
+    """Stairs._remove_redundant_step_points on every value column / change column with <= 3 rows over {NaN, 0, 1}
+    (both code paths: via values and via step changes); the result is the list of kept row positions"""
+    try:
+        st = _fresh_import()
+        import itertools
+        import numpy as np
+        import pandas as pd
+        dom = [float("nan"), 0.0, 1.0]
+        vrows, drows = [], []
+        for init in dom:
+            for n in (1, 2, 3):
+                for col in itertools.product(dom, repeat=n):
+                    idx = list(range(10, 10 + n))
+                    f = st.Stairs._new(initial_value=init, data=pd.DataFrame({"value": list(col)}, index=idx))
+                    f._remove_redundant_step_points()
+                    kept = [] if f._data is None else [int(i) - 10 for i in f._data.index]
+                    vrows.append((init, col, kept))
+                    g = st.Stairs._new(initial_value=init, data=pd.DataFrame({"delta": list(col)}, index=idx))
+                    g._remove_redundant_step_points()
+                    keptd = [] if g._data is None else [int(i) - 10 for i in g._data.index]
+                    drows.append((col, keptd))
+        status["removeRedundant"] = f"ok ({len(vrows)} + {len(drows)} cases)"
+        out = ["def removeViaValuesCases : List (Val × List Val × List Nat) := ["]
+        out.append(",\n".join(f"  ({_lean_val(i)}, [{', '.join(_lean_val(x) for x in c)}], {k})" for i, c, k in vrows))
+        out.append("]\n")
+        seen = set()
+        d2 = []
+        for c, k in drows:
+            if c not in seen:
+                seen.add(c)
+                d2.append((c, k))
+        out.append("def removeViaDeltasCases : List (List Val × List Nat) := [")
+        out.append(",\n".join(f"  ([{', '.join(_lean_val(x) for x in c)}], {k})" for c, k in d2))
+        out.append("]")
+        return "\n".join(out)
+    except Exception as exc:  # noqa: BLE001
+        status["removeRedundant"] = "failed: " + repr(exc)[:200]
+        return ("def removeViaValuesCases : List (Val × List Val × List Nat) := [(none, [some 1], [])]  -- extraction failed\n"
+                "def removeViaDeltasCases : List (List Val × List Nat) := [([some 1], [])]")
+
+
+def extract_maskify(status):
+    """masking._maskify: what a masker value in {NaN, 0, non-zero} becomes (NaN = masked, 0 = kept), for mask and where,
+    both for step values and for the initial value"""
+    try:
+        st = _fresh_import()
+        import numpy as np
+        import pandas as pd
+        from staircase.core.ops.masking import _maskify
+        dom = {"nan": float("nan"), "zero": 0.0, "nonzero": -2.5}
+        lines = ["def maskify : Bool → Tri → Val × Val   -- inverse?, masker value ↦ (as a step value, as the initial value)"]
+        for inverse in (False, True):
+            for name, x in dom.items():
+                g = st.Stairs._new(initial_value=x, data=pd.DataFrame({"value": [x]}, index=[10]))
+                m = _maskify(g, inverse=inverse)
+                sv = m._get_values().iloc[0]
+                lines.append(f"  | {str(inverse).lower()}, .{name} => ({_lean_val(sv)}, {_lean_val(m.initial_value)})")
+        status["maskify"] = "ok"
+        return "\n".join(lines)
+    except Exception as exc:  # noqa: BLE001
+        status["maskify"] = "failed: " + repr(exc)[:200]
+        return "def maskify : Bool → Tri → Val × Val := fun _ _ => (some 7, some 7)  -- extraction failed"
+
+
 HEADER = """import SCModel.Model.Stats
 /-!
 # SCModel.Generated.Tables — REGENERATED from /repo's source on every run by tools/extract_tables.py.
@@ -344,7 +466,8 @@ def regenerate():
     status = {}
     parts = [extract_get_lims(status), extract_sample_side(status), extract_slicer_endpoint(status),
              extract_scalar_logic(status), extract_mismatch_cond(status), extract_clip_sides(status),
-             extract_layer_skeleton(status), extract_ctor_census(status)]
+             extract_layer_skeleton(status), extract_ctor_census(status),
+             extract_form_conversions(status), extract_remove_redundant(status), extract_maskify(status)]
     text = HEADER + "\n\n".join(parts) + "\n\nend SC.Generated\n"
     os.makedirs(os.path.dirname(OUT), exist_ok=True)
     old = open(OUT).read() if os.path.exists(OUT) else None
